@@ -89,7 +89,7 @@ impl<'a> ArrayDeserializer<'a> {
     pub fn new(path: String, _strategy: Option<&Strategy>, array: View<'a>) -> Result<Self> {
         use {ArrayDeserializer as D, View as V};
         match array {
-            View::Null(_) => Ok(Self::Null(NullDeserializer::new(path))),
+            View::Null(view) => Ok(Self::Null(NullDeserializer::new(path, view.len))),
             V::Boolean(view) => Ok(D::Bool(BoolDeserializer::new(path, view))),
             V::Int8(view) => Ok(D::I8(IntegerDeserializer::new(path, view))),
             V::Int16(view) => Ok(D::I16(IntegerDeserializer::new(path, view))),
